@@ -14,6 +14,9 @@ LEVEL = "model_checking"
 def run(ctx):
     res = c06.collect(ctx)
     c06.report(ctx, res, lambda key: key in rpcpipe.C07_EVENTS, "C06")
+    import os
+    if os.environ.get("VERIF_RPC_ONLY") in (None, "", "wire"):
+        c06.wire_phase(ctx, res, lambda sig: sig.startswith(c06.WIRE_C07))
 
 
 replay = c06.replay
